@@ -185,8 +185,13 @@ func TestVF_C04(t *testing.T) {
 			rec.Fail(rt, "credential-issuance-error:"+variant, map[string]any{"err": err.Error(), "classes": classes, "key": kp.Name})
 			return
 		}
-		ms := c.cred.Attributes // ground truth incl. secret (and witness value)
-		nAll := len(ms) - 1     // non-secret attributes incl. revocation attribute
+		// ground truth incl. secret (and witness value): a deep copy taken now - the credential object
+		// is used for every subset in turn and must still hold these values at the end
+		ms := make([]*big.Int, len(c.cred.Attributes))
+		for i, a := range c.cred.Attributes {
+			ms[i] = new(big.Int).Set(a)
+		}
+		nAll := len(ms) - 1 // non-secret attributes incl. revocation attribute
 		det := func(D []int, issig bool, extra string) map[string]any {
 			a := make([]string, len(ms))
 			for i, m := range ms {
@@ -201,6 +206,17 @@ func TestVF_C04(t *testing.T) {
 			for i := 0; i < k; i++ {
 				if mask&(1<<uint(i)) != 0 {
 					D = append(D, i+1)
+				}
+			}
+			// the choice is a set: the order in which the caller lists it must not matter
+			if len(D) >= 2 {
+				switch rapid.IntRange(0, 2).Draw(rt, "order") {
+				case 1:
+					for i, j := 0, len(D)-1; i < j; i, j = i+1, j-1 {
+						D[i], D[j] = D[j], D[i]
+					}
+				case 2:
+					D[0], D[len(D)-1] = D[len(D)-1], D[0]
 				}
 			}
 			for _, issig := range []bool{false, true} {
@@ -377,6 +393,13 @@ func TestVF_C04(t *testing.T) {
 							rec.Fail(rt, "timestamp-contribution-leaks-hidden-attribute"+ts.when, det(D, issig, fmt.Sprintf("index %d", i)))
 							return
 						}
+					}
+				}
+				// proving must not change the credential it proves from
+				for i := range ms {
+					if i < len(c.cred.Attributes) && c.cred.Attributes[i].Cmp(ms[i]) != 0 {
+						rec.Fail(rt, "proving-changes-the-credential", det(D, issig, fmt.Sprintf("attribute %d", i)))
+						return
 					}
 				}
 			}
